@@ -1,11 +1,12 @@
 /-
 C06 — Sample allocation meets the variance budget; runs stop only on stated criteria.
 Property theorems about RpylibModel/Model/Alloc.lean (allocation, bias test) and RpylibModel/Model/Mlmc.lean (loop).
-Monotonicity of the loop over all histories: Lemmas/C06Mono.lean; what the criteria receive at every iteration: Lemmas/C05Iter.lean.
+Monotonicity of the loop over all histories: Lemmas/C06Mono.lean; invariance of the allocation under the unit of cost: Lemmas/C06Scale.lean; what the criteria receive at every iteration: Lemmas/C05Iter.lean.
 -/
 import RpylibModel.Model.Alloc
 import RpylibModel.Model.Mlmc
 import RpylibModel.Proofs.Lemmas.C06Mono
+import RpylibModel.Proofs.Lemmas.C06Scale
 import RpylibModel.Proofs.Lemmas.C05Iter
 import Mathlib.Tactic.Linarith
 import Mathlib.Tactic.Ring
